@@ -98,12 +98,14 @@ def run(ctx, progs):
             if len(bs) == 1:
                 b = bs[0]
                 r = b.return_terms()
-                if len(r) == 1:
-                    tg, roots = tag_of(r[0][1], wrappers, False)
-                    tn_ok = resolve_tag(tg, decl) == 'native' and roots == {1}
-                    ctx.ob("R20.1.to_native", path, tn_ok, b.where(), f"returns {tstr(deep_strip(r[0][1]))}: tag {resolve_tag(tg, decl)} (field declared {decl}); must be native and depend on self")
-                else:
-                    ctx.ob("R20.1.to_native", path, False, b.where(), "multi-path return not recognised")
+                tn_ok = bool(r)
+                ds = []
+                for _pp, rt in r:
+                    tg, roots = tag_of(rt, wrappers, False)
+                    one = resolve_tag(tg, decl) == 'native' and roots == {1}
+                    tn_ok = tn_ok and one
+                    ds.append(f"{tstr(deep_strip(rt))}: tag {resolve_tag(tg, decl)}")
+                ctx.ob("R20.1.to_native", path, tn_ok, b.where(), f"every return path must yield a native-tagged value derived from self (field declared {decl}): {ds}")
                 allowed_field_readers.add(b.id)
             else:
                 ctx.ob("R20.1.to_native", path, False, where, f"{len(bs)} bodies named to_native")
@@ -112,12 +114,19 @@ def run(ctx, progs):
             ok = False
             for b in bs:
                 r = b.return_terms()
-                if len(r) == 1:
-                    rt = deep_strip(r[0][1])
+                ok = bool(r)
+                ds = []
+                for _pp, rt0 in r:
+                    rt = deep_strip(rt0)
+                    one = False
                     if rt[0] == 'agg' and rt[1] == path and len(rt[3]) == 1:
                         tg, roots = tag_of(rt[3][0], wrappers, tn_ok)
-                        ok = resolve_tag(tg, decl) == decl and roots == {1}
-                        ctx.ob("R20.1.from_native", path, ok, b.where(), f"builds {tstr(rt)}: stored tag {resolve_tag(tg, decl)}, declared {decl}")
+                        one = resolve_tag(tg, decl) == decl and roots == {1}
+                        ds.append(f"{tstr(rt)}: stored tag {resolve_tag(tg, decl)}")
+                    else:
+                        ds.append(f"{tstr(rt)}: unrecognised")
+                    ok = ok and one
+                ctx.ob("R20.1.from_native", path, ok, b.where(), f"every return path must store a value tagged {decl}: {ds}")
                 allowed_field_readers.add(b.id)
             if not bs:
                 ctx.ob("R20.1.from_native", path, False, where, "no From<native> impl body")
@@ -125,11 +134,11 @@ def run(ctx, progs):
             bs = [b for b in prog.bodies if b.name == "from" and b.impl_trait == "std::convert::From" and f"From<{path}> for {native}" in b.id]
             for b in bs:
                 r = b.return_terms()
-                ok = False
-                if len(r) == 1:
-                    tg, roots = tag_of(r[0][1], wrappers, tn_ok)
-                    ok = resolve_tag(tg, decl) == 'native' and roots == {1}
-                    ctx.ob("R20.1.into_native", path, ok, b.where(), f"returns {tstr(deep_strip(r[0][1]))}: tag {resolve_tag(tg, decl)}")
+                ok = bool(r)
+                for _pp, rt0 in r:
+                    tg, roots = tag_of(rt0, wrappers, tn_ok)
+                    ok = ok and resolve_tag(tg, decl) == 'native' and roots == {1}
+                ctx.ob("R20.1.into_native", path, ok, b.where(), f"every return path yields native: {[tstr(deep_strip(x)) for _p, x in r]}")
                 allowed_field_readers.add(b.id)
             if not bs:
                 ctx.ob("R20.1.into_native", path, False, where, "no From<wrapper> for native impl body")
@@ -139,15 +148,19 @@ def run(ctx, progs):
             ctx.ob("R20.1.eq.present", path, len(eqs) == 2, where, f"{len(eqs)} mixed PartialEq bodies, expected 2")
             for b in eqs:
                 r = b.return_terms()
-                ok = False
-                detail = "unrecognised"
-                if len(r) == 1:
-                    rt = deep_strip(r[0][1])
+                ok = bool(r)
+                detail = ""
+                for _pp, rt0 in r:
+                    rt = deep_strip(rt0)
+                    one = False
                     if rt[0] == 'bin' and rt[1] == 'Eq':
                         (ta, ra), (tb, rb) = tag_of(rt[2], wrappers, tn_ok), tag_of(rt[3], wrappers, tn_ok)
                         ta, tb = resolve_tag(ta, decl), resolve_tag(tb, decl)
-                        ok = ta == tb and ta in ('native', 'le', 'be') and ra | rb == {1, 2} and ra != rb
-                        detail = f"compares {tstr(rt[2])} [{ta}] with {tstr(rt[3])} [{tb}]"
+                        one = ta == tb and ta in ('native', 'le', 'be') and ra | rb == {1, 2} and ra != rb
+                        detail += f"compares {tstr(rt[2])} [{ta}] with {tstr(rt[3])} [{tb}]; "
+                    else:
+                        detail += f"returns {tstr(rt)[:80]} (not a whole-value comparison); "
+                    ok = ok and one
                 ctx.ob("R20.1.eq", strip_generics(b.id), ok, b.where(), detail + "; both sides must carry the same byte-order tag")
                 allowed_field_readers.add(b.id)
         # ---- no other hand-written body touches a wrapper's field
